@@ -3,6 +3,7 @@ import TrippyVerif.Lemmas.Checksum
 import TrippyVerif.Lemmas.Ext
 import TrippyVerif.Props.C13
 import TrippyVerif.Spec.Decode
+import TrippyVerif.Spec.Quote
 /-
 Helper lemmas for the wire layer (C04 receive half, C11, C02).
 -/
@@ -468,5 +469,606 @@ theorem makeUdpParis_spec (c : ChanCfg) (hc : c.AddrOk) (sp dp seq : Nat) :
   · simp [makeUdpParis, h2, parisPkt]
   · exact verifies_swap _ (pseudoHdr_even c hc 17 10) _ _ _ _ _ _ _ _ _ _ h3
 
+
+/-! ## receive side (C02) -/
+
+section recv
+open TV.Ext TV.Rfc4884 TV.Quote
+attribute [local simp] ip4Hdr ip6Hdr l4Hdr tcpHdr
+
+/-- side conditions of an RFC 4884 body: the extension structure has at least its header and the
+length attribute fits its octet -/
+def BodyOk (v6 : Bool) (q : Buf) : Body → Prop
+  | .plain => True
+  | .rfc4884 mode ext => 4 ≤ ext.length ∧ lengthAttr v6 mode q ≤ 255
+
+theorem take_prefix_of_append (q z : Buf) (m N : Nat) (hN : N ≤ m) (hq : N ≤ q.length) :
+    ((q.take m) ++ z).take N = q.take N ∧ N ≤ ((q.take m) ++ z).length := by
+  constructor
+  · rw [List.take_append_of_le_length (by simp; omega), List.take_take]
+    congr 1; omega
+  · simp; omega
+
+/-- `tracerExtract` in terms of the result of `split` -/
+theorem tracerExtract_of_split (fam te en : Bool) (icmp : Buf) (h8 : 8 ≤ icmp.length)
+    (a : Buf) (eo : Option Buf)
+    (hs : split ((lengthOctet fam icmp).toNat * unitOf fam) (icmp.drop 8) = (a, eo))
+    (he : ∀ e, eo = some e → 4 ≤ e.length) :
+    ∃ exts, tracerExtract true fam te en icmp =
+      .ok (if te && !en then icmp.drop 8 else a, exts) := by
+  unfold tracerExtract
+  rw [payload_fixed fam _ h8, extension_fixed fam _ h8, payloadRaw_ok _ h8, hs]
+  cases te <;> cases en <;> simp
+  all_goals
+    cases eo with
+    | none => simp
+    | some e =>
+      obtain ⟨xs, hxs, _⟩ := extensionsTryFrom_ok e (he e rfl)
+      simp [hxs]
+
+theorem split_zero (q : Buf) : split 0 q = (q, none) ∨
+    (split 0 q = (q.take 128, some (q.drop 128)) ∧ 4 ≤ (q.drop 128).length) := by
+  unfold split origMin minHeader
+  by_cases h1 : q.length > 128
+  · by_cases h2 : (q.drop 128).length ≥ 4
+    · right; refine ⟨?_, h2⟩; simp only [List.length_drop] at h2; simp [h1, h2]
+    · left; simp only [List.length_drop] at h2; simp [h1, h2]
+  · left; simp [h1]
+
+/-- Whatever the embedding (plain, RFC 4884 compliant or legacy) and the parse mode, the octets
+handed to the IP parser begin with the first `N ≤ 128` octets of the quotation. -/
+theorem extract_prefix (v6 te en : Bool) (h : IcmpHdr) (b : Body) (q : Buf) (hb : BodyOk v6 q b)
+    (N : Nat) (hN : N ≤ 128) (hq : N ≤ q.length) :
+    ∃ q' exts, tracerExtract true v6 te en (icmpMessage v6 h b q) = .ok (q', exts) ∧
+      q'.take N = q.take N ∧ N ≤ q'.length := by
+  cases b with
+  | plain =>
+    have hlen : 8 ≤ (icmpHeaderBytes v6 h 0 ++ q).length := by
+      unfold icmpHeaderBytes; cases v6 <;> simp
+    have hdrop : (icmpHeaderBytes v6 h 0 ++ q).drop 8 = q := by
+      unfold icmpHeaderBytes; cases v6 <;> simp
+    have hlo : (lengthOctet v6 (icmpHeaderBytes v6 h 0 ++ q)).toNat * unitOf v6 = 0 := by
+      unfold icmpHeaderBytes lengthOctet lengthOffset; cases v6 <;> simp
+    simp only [icmpMessage]
+    rcases split_zero q with hs | ⟨hs, he⟩
+    · obtain ⟨exts, hx⟩ := tracerExtract_of_split v6 te en _ hlen q none (by rw [hlo, hdrop, hs])
+        (by intro e h; cases h)
+      refine ⟨_, exts, hx, ?_⟩
+      rw [hdrop]; split <;> exact ⟨rfl, hq⟩
+    · obtain ⟨exts, hx⟩ := tracerExtract_of_split v6 te en _ hlen (q.take 128) (some (q.drop 128))
+        (by rw [hlo, hdrop, hs]) (by intro e h; cases h; exact he)
+      refine ⟨_, exts, hx, ?_⟩
+      rw [hdrop]; split
+      · exact ⟨rfl, hq⟩
+      · have := take_prefix_of_append q [] 128 N hN hq
+        simpa using this
+  | rfc4884 mode ext =>
+    obtain ⟨he, hfit⟩ := hb
+    simp only [icmpMessage]
+    have hlen := buildIcmp_length v6 h mode q ext
+    have hs := splitFixed_built v6 h mode q ext he hfit
+    rw [splitWith_fixed v6 _ hlen] at hs
+    obtain ⟨exts, hx⟩ := tracerExtract_of_split v6 te en _ hlen _ _ (by injection hs)
+      (by intro e h; cases h; exact he)
+    have hp : ∀ z : Buf, ((padOrig v6 mode q) ++ z).take N = q.take N ∧
+        N ≤ ((padOrig v6 mode q) ++ z).length := by
+      intro z
+      cases mode with
+      | compliant =>
+        have := take_prefix_of_append q (List.replicate (paddedLen v6 q.length - q.length) 0 ++ z)
+          q.length N hq hq
+        simpa [padOrig, padTo] using this
+      | legacy =>
+        have := take_prefix_of_append q
+          (List.replicate (128 - (q.take 128).length) 0 ++ z) 128 N hN hq
+        simpa [padOrig, padTo] using this
+    refine ⟨_, exts, hx, ?_⟩
+    rw [buildIcmp_drop]; split
+    · exact hp ext
+    · simpa using hp []
+
+theorem extractEchoRequest_cons (a0 a1 a2 a3 a4 a5 a6 a7 : UInt8) (t : Buf) :
+    extractEchoRequest (a0 :: a1 :: a2 :: a3 :: a4 :: a5 :: a6 :: a7 :: t) =
+      .ok (beN a4 a5, beN a6 a7) := by
+  unfold extractEchoRequest
+  rw [if_neg (by simp only [List.length_cons, l4Hdr]; omega)]
+  simp [rd16, rd]
+
+theorem extractUdp_cons (a0 a1 a2 a3 a4 a5 a6 a7 : UInt8) (t : Buf) :
+    extractUdp (a0 :: a1 :: a2 :: a3 :: a4 :: a5 :: a6 :: a7 :: t) =
+      .ok (beN a0 a1, beN a2 a3, beN a6 a7, beN a4 a5 - 8) := by
+  unfold extractUdp
+  rw [if_neg (by simp only [List.length_cons, l4Hdr]; omega)]
+  simp [rd16, rd]
+
+theorem extractTcp4_cons (a0 a1 a2 a3 a4 a5 a6 a7 : UInt8) (t : Buf) :
+    extractTcp4 (a0 :: a1 :: a2 :: a3 :: a4 :: a5 :: a6 :: a7 :: t) = .ok (beN a0 a1, beN a2 a3) := by
+  unfold extractTcp4
+  simp only [tcpHdr]
+  split
+  · rw [if_neg (by simp only [List.length_append, List.length_cons, List.length_replicate]; omega)]
+    simp [rd16, rd]
+  · simp [rd16, rd]
+
+theorem extractTcp6_of_length (l4 : Buf) (a0 a1 a2 a3 : UInt8) (t : Buf)
+    (h : l4 = a0 :: a1 :: a2 :: a3 :: t) (hl : 20 ≤ l4.length) :
+    extractTcp6 l4 = .ok (beN a0 a1, beN a2 a3) := by
+  unfold extractTcp6
+  rw [if_neg (by simp only [tcpHdr]; omega)]
+  subst h
+  simp [rd16, rd]
+
+/-- the first 28 octets of a quoted IPv4 datagram without options -/
+def q4 (tos l0 l1 i0 i1 f0 f1 ttl pr c0 c1 s0 s1 s2 s3 d0 d1 d2 d3 a0 a1 a2 a3 a4 a5 a6 a7 : UInt8) : Buf :=
+  [0x45, tos, l0, l1, i0, i1, f0, f1, ttl, pr, c0, c1, s0, s1, s2, s3, d0, d1, d2, d3,
+   a0, a1, a2, a3, a4, a5, a6, a7]
+
+theorem q4_payload
+    (tos l0 l1 i0 i1 f0 f1 ttl pr c0 c1 s0 s1 s2 s3 d0 d1 d2 d3 a0 a1 a2 a3 a4 a5 a6 a7 : UInt8)
+    (tail : Buf) :
+    ipv4Payload (q4 tos l0 l1 i0 i1 f0 f1 ttl pr c0 c1 s0 s1 s2 s3 d0 d1 d2 d3 a0 a1 a2 a3 a4 a5 a6 a7 ++ tail) =
+      .ok (a0 :: a1 :: a2 :: a3 :: a4 :: a5 :: a6 :: a7 :: tail) := by
+  rw [ipv4Payload_ok _ (by simp [q4])]
+  have h0 : ((q4 tos l0 l1 i0 i1 f0 f1 ttl pr c0 c1 s0 s1 s2 s3 d0 d1 d2 d3 a0 a1 a2 a3 a4 a5 a6 a7 ++ tail).getD 0 0) = 0x45 := by
+    simp [q4]
+  have hl : (q4 tos l0 l1 i0 i1 f0 f1 ttl pr c0 c1 s0 s1 s2 s3 d0 d1 d2 d3 a0 a1 a2 a3 a4 a5 a6 a7 ++ tail).length = 28 + tail.length := by
+    simp [q4]; omega
+  rw [h0, hl]
+  have : min (20 + ((0x45 : UInt8).toNat % 16 * 4 - 20)) (28 + tail.length) = 20 := by
+    have : (0x45 : UInt8).toNat % 16 * 4 - 20 = 0 := by decide
+    omega
+  rw [this]
+  simp [q4]
+
+
+theorem q4_length
+    (tos l0 l1 i0 i1 f0 f1 ttl pr c0 c1 s0 s1 s2 s3 d0 d1 d2 d3 a0 a1 a2 a3 a4 a5 a6 a7 : UInt8)
+    (tail : Buf) :
+    (q4 tos l0 l1 i0 i1 f0 f1 ttl pr c0 c1 s0 s1 s2 s3 d0 d1 d2 d3 a0 a1 a2 a3 a4 a5 a6 a7 ++ tail).length
+      = 28 + tail.length := by
+  simp [q4]; omega
+
+/-- **IPv4 parse lemma**: what `extract_probe_proto_resp` makes of a quotation whose first 28
+octets are the IP header (IHL 5) and 8 octets of data — whatever follows. -/
+theorem protoResp_q4 (c : ChanCfg) (hc : c.AddrOk) (hv : c.v6 = false)
+    (tos l0 l1 i0 i1 f0 f1 ttl pr c0 c1 s0 s1 s2 s3 d0 d1 d2 d3 a0 a1 a2 a3 a4 a5 a6 a7 : UInt8)
+    (tail : Buf) :
+    protoResp c (q4 tos l0 l1 i0 i1 f0 f1 ttl pr c0 c1 s0 s1 s2 s3 d0 d1 d2 d3 a0 a1 a2 a3 a4 a5 a6 a7 ++ tail) =
+      match c.proto with
+      | .icmp =>
+        if pr = 1 then .ok (some (.icmp (beN a4 a5) (beN a6 a7) (some tos.toNat))) else .ok none
+      | .udp =>
+        if pr = 17 then
+          (fun e => some (.udp (beN i0 i1) (addrNat [d0, d1, d2, d3]) (beN a0 a1) (beN a2 a3)
+              (some tos.toNat) e (beN a6 a7) (beN a4 a5 - 8) false)) <$>
+            calcUdpChecksum c (beN a0 a1) (beN a2 a3) (beN a4 a5 - 8)
+        else .ok none
+      | .tcp =>
+        if pr = 6 then
+          .ok (some (.tcp (addrNat [d0, d1, d2, d3]) (beN a0 a1) (beN a2 a3) (some tos.toNat)))
+        else .ok none := by
+  have hl := q4_length tos l0 l1 i0 i1 f0 f1 ttl pr c0 c1 s0 s1 s2 s3 d0 d1 d2 d3 a0 a1 a2 a3 a4 a5 a6 a7 tail
+  have hlt : ¬ ((q4 tos l0 l1 i0 i1 f0 f1 ttl pr c0 c1 s0 s1 s2 s3 d0 d1 d2 d3 a0 a1 a2 a3 a4 a5 a6 a7 ++ tail).length < ipHdr c) := by
+    rw [hl]; simp [ipHdr, hv]; omega
+  unfold protoResp
+  rw [if_neg hlt]
+  simp only [hv, Bool.false_eq_true, if_false]
+  unfold protoResp4
+  rw [rd_ok _ 9 (by rw [hl]; omega), rd_ok _ 1 (by rw [hl]; omega), q4_payload,
+    rd16_ok _ 4 (by rw [hl]; omega), rdSlice_ok _ 16 4 (by rw [hl]; omega)]
+  obtain ⟨ck, _, hck⟩ := calcUdpChecksum_ok c hc (beN a0 a1) (beN a2 a3) (beN a4 a5 - 8)
+  cases c.proto <;>
+    simp [q4, protoIcmp, protoUdp, protoTcp, extractEchoRequest_cons, extractUdp_cons,
+      extractTcp4_cons, hck]
+
+/-- a buffer is determined by a long enough prefix and the rest -/
+theorem eq_append_of_take {b x : Buf} {n : Nat} (h : b.take n = x) : b = x ++ b.drop n := by
+  rw [← h, List.take_append_drop]
+
+theorem getD_append_left (H R : Buf) (i : Nat) (h : i < H.length) :
+    (H ++ R).getD i 0 = H.getD i 0 := by
+  simp [List.getD, List.getElem?_append_left h]
+
+/-- the part of the quoted IPv6 payload the tracer looks at, given the rest `tail` after the first
+eight octets: limited by the quoted payload-length field and by what was quoted -/
+def tail6 (H tail : Buf) : Buf :=
+  tail.take (min (40 + beN (H.getD 4 0) (H.getD 5 0)) (48 + tail.length) - 48)
+
+theorem ipv6Payload_H (H : Buf) (hH : H.length = 40) (a0 a1 a2 a3 a4 a5 a6 a7 : UInt8) (tail : Buf)
+    (hpl : 8 ≤ beN (H.getD 4 0) (H.getD 5 0)) :
+    ipv6Payload (H ++ a0 :: a1 :: a2 :: a3 :: a4 :: a5 :: a6 :: a7 :: tail) =
+      .ok (a0 :: a1 :: a2 :: a3 :: a4 :: a5 :: a6 :: a7 :: tail6 H tail) := by
+  have hl : (H ++ a0 :: a1 :: a2 :: a3 :: a4 :: a5 :: a6 :: a7 :: tail).length = 48 + tail.length := by
+    simp [hH]; omega
+  rw [ipv6Payload_ok _ (by omega), hl, getD_append_left _ _ 4 (by omega), getD_append_left _ _ 5 (by omega)]
+  rw [if_neg (by omega)]
+  congr 1
+  rw [List.drop_take, List.drop_append_of_le_length (by omega), List.drop_of_length_le (by omega),
+    List.nil_append]
+  unfold tail6
+  generalize hn : min (40 + beN (H.getD 4 0) (H.getD 5 0)) (48 + tail.length) = n
+  have hn8 : n - 40 = (n - 48) + 8 := by omega
+  rw [hn8]
+  simp [List.take_succ_cons]
+
+theorem udpHasMagic_cons (a0 a1 a2 a3 a4 a5 a6 a7 : UInt8) (t : Buf) :
+    udpHasMagic (a0 :: a1 :: a2 :: a3 :: a4 :: a5 :: a6 :: a7 :: t) =
+      .ok (Consts.net6_MAGIC.isPrefixOf t) := by
+  unfold udpHasMagic
+  rw [if_neg (by simp only [List.length_cons, l4Hdr]; omega)]
+  rw [udpPayload_ok _ (by simp only [List.length_cons]; omega)]
+  simp
+
+theorem extractTcp6_cons (a0 a1 a2 a3 a4 a5 a6 a7 : UInt8) (t : Buf) :
+    extractTcp6 (a0 :: a1 :: a2 :: a3 :: a4 :: a5 :: a6 :: a7 :: t) =
+      if t.length < 12 then .err .pktShort else .ok (beN a0 a1, beN a2 a3) := by
+  unfold extractTcp6
+  by_cases h : t.length < 12
+  · rw [if_pos (by simp only [List.length_cons, tcpHdr]; omega), if_pos h]
+  · rw [if_neg (by simp only [List.length_cons, tcpHdr]; omega), if_neg h]
+    simp [rd16, rd]
+
+/-- **IPv6 parse lemma**: what `extract_probe_proto_resp` makes of a quotation consisting of a
+40-octet IPv6 header `H` whose payload-length field is at least 8, eight octets of payload and
+whatever follows. -/
+theorem protoResp_H6 (c : ChanCfg) (hv : c.v6 = true) (H : Buf) (hH : H.length = 40)
+    (a0 a1 a2 a3 a4 a5 a6 a7 : UInt8) (tail : Buf)
+    (hpl : 8 ≤ beN (H.getD 4 0) (H.getD 5 0)) :
+    protoResp c (H ++ a0 :: a1 :: a2 :: a3 :: a4 :: a5 :: a6 :: a7 :: tail) =
+      let tc := (H.getD 0 0).toNat % 16 * 16 + (H.getD 1 0).toNat / 16
+      let dest := addrNat (H.drop 24)
+      match c.proto with
+      | .icmp =>
+        if H.getD 6 0 = 58 then .ok (some (.icmp (beN a4 a5) (beN a6 a7) (some tc))) else .ok none
+      | .udp =>
+        if H.getD 6 0 = 17 then
+          let magic := Consts.net6_MAGIC.isPrefixOf (tail6 H tail)
+          .ok (some (.udp 0 dest (beN a0 a1) (beN a2 a3) (some tc) (beN a6 a7) (beN a6 a7)
+            (if magic then beN a4 a5 - 8 - 6 else beN a4 a5 - 8) magic))
+        else .ok none
+      | .tcp =>
+        if H.getD 6 0 = 6 then
+          if (tail6 H tail).length < 12 then .err .pktShort
+          else .ok (some (.tcp dest (beN a0 a1) (beN a2 a3) (some tc)))
+        else .ok none := by
+  have hl : (H ++ a0 :: a1 :: a2 :: a3 :: a4 :: a5 :: a6 :: a7 :: tail).length = 48 + tail.length := by
+    simp [hH]; omega
+  have hlt : ¬ ((H ++ a0 :: a1 :: a2 :: a3 :: a4 :: a5 :: a6 :: a7 :: tail).length < ipHdr c) := by
+    rw [hl]; simp [ipHdr, hv]; omega
+  have hdst : ((H ++ a0 :: a1 :: a2 :: a3 :: a4 :: a5 :: a6 :: a7 :: tail).drop 24).take 16 = H.drop 24 := by
+    rw [List.drop_append_of_le_length (by omega), List.take_append_of_le_length (by simp; omega),
+      List.take_of_length_le (by simp; omega)]
+  unfold protoResp
+  rw [if_neg hlt]
+  simp only [hv, if_true]
+  unfold protoResp6
+  rw [rd_ok _ 6 (by rw [hl]; omega), ipv6Payload_H H hH _ _ _ _ _ _ _ _ tail hpl,
+    trafficClass_ok _ (by rw [hl]; omega), rdSlice_ok _ 24 16 (by rw [hl]; omega), hdst,
+    getD_append_left _ _ 6 (by omega), getD_append_left _ _ 0 (by omega),
+    getD_append_left _ _ 1 (by omega)]
+  have hm6 : Consts.net6_MAGIC.length = 6 := by decide
+  cases c.proto <;>
+    simp [protoIcmpV6, protoUdp, protoTcp, extractEchoRequest_cons, extractUdp_cons,
+      extractTcp6_cons, udpHasMagic_cons, hm6]
+  · split
+    · split <;> rfl
+    · rfl
+
+
+theorem icmpMessage_head (v6 : Bool) (h : IcmpHdr) (b : Body) (q : Buf) :
+    ∃ rest, icmpMessage v6 h b q = h.type :: h.code :: rest ∧ 6 ≤ rest.length := by
+  cases b <;> cases v6 <;>
+    simp [icmpMessage, buildIcmp, icmpHeaderBytes] <;> omega
+
+/-- the response built from a protocol response -/
+def mkResp (kind : Strat.RespKind) (addr : Buf) (exts : Option (List Extension))
+    (pr : Option Strat.ProtoResp) : Option WResp :=
+  pr.map fun p => { kind := kind, addr := addr, proto := p, exts := exts }
+
+/-- `extract_probe_resp` on a Time Exceeded (code 0) / Destination Unreachable message: the
+RFC 4884 split, then the protocol parser on octets that begin like the quotation. -/
+theorem extractProbeResp_error (c : ChanCfg) (te : Bool) (h : IcmpHdr) (b : Body) (q src : Buf)
+    (hb : BodyOk c.v6 q b) (N : Nat) (hN : N ≤ 128) (hq : N ≤ q.length)
+    (hty : h.type = if te then tyTimeExceeded c.v6 else tyDestUnreachable c.v6)
+    (hcode : te = true → h.code = 0) :
+    ∃ q' exts, extractProbeResp c (icmpMessage c.v6 h b q) src =
+        mkResp (if te then .timeExceeded 0 else .destUnreachable h.code.toNat) src exts
+          <$> protoResp c q' ∧
+      q'.take N = q.take N ∧ N ≤ q'.length := by
+  obtain ⟨rest, hm, hr⟩ := icmpMessage_head c.v6 h b q
+  obtain ⟨q', exts, hx, hp, hl⟩ := extract_prefix c.v6 te c.extEnabled h b q hb N hN hq
+  refine ⟨q', exts, ?_, hp, hl⟩
+  unfold extractProbeResp
+  have h0 : rd (icmpMessage c.v6 h b q) 0 = .ok h.type := by rw [hm]; simp [rd]
+  have h1 : rd (icmpMessage c.v6 h b q) 1 = .ok h.code := by rw [hm]; simp [rd]
+  rw [h0, h1]
+  simp only [R.bind_ok, codeIsFixed]
+  cases te with
+  | true =>
+    have hc0 := hcode rfl
+    simp only [if_true] at hty
+    simp only [hty, if_true, hc0, hx, R.bind_ok]
+    have : (0 : UInt8).toNat = 0 := rfl
+    simp only [this, if_true, R.bind_ok]
+    cases protoResp c q' <;> simp [mkResp]
+  | false =>
+    simp only [Bool.false_eq_true, if_false] at hty
+    have hne : tyDestUnreachable c.v6 ≠ tyTimeExceeded c.v6 := by
+      unfold tyDestUnreachable tyTimeExceeded; cases c.v6 <;> decide
+    simp only [hty, if_neg hne, if_true, hx, R.bind_ok, Bool.false_eq_true, if_false]
+    cases protoResp c q' <;> simp [mkResp]
+
+/-- `recv_icmp_probe` on a delivered message: the responder is the outer source address (IPv4) /
+the address reported by the socket (IPv6) and the ICMP message is handed to `extract_probe_resp` -/
+theorem recvIcmp_deliver (c : ChanCfg) (hc : c.AddrOk) (o : Outer4) (responder icmp src : Buf)
+    (hr : responder.length = if c.v6 then 16 else 4) (h8 : 8 ≤ icmp.length)
+    (hsrc : c.v6 = true → src = responder) :
+    recvIcmp c (deliver c o responder icmp) src = extractProbeResp c icmp responder := by
+  unfold recvIcmp deliver
+  cases hv : c.v6
+  · simp only [Bool.false_eq_true, if_false]
+    have h4 := (show c.src.length = 4 ∧ c.dst.length = 4 by simpa [ChanCfg.AddrOk, hv] using hc).1
+    simp only [hv, Bool.false_eq_true, if_false] at hr
+    obtain ⟨r0, r1, r2, r3, hr'⟩ := len4 _ hr
+    obtain ⟨s0, s1, s2, s3, hs'⟩ := len4 _ h4
+    rw [hr', hs']
+    unfold recvIcmp4
+    have hl : ([0x45, o.tos, o.l0, o.l1, o.i0, o.i1, o.f0, o.f1, o.ttl, 1, o.c0, o.c1] ++
+        [r0, r1, r2, r3] ++ [s0, s1, s2, s3] ++ icmp).length = 20 + icmp.length := by
+      simp; omega
+    rw [if_neg (by rw [hl]; simp), rdSlice_ok _ 12 4 (by rw [hl]; omega),
+      ipv4Payload_ok _ (by rw [hl]; omega), hl]
+    have hmin : min (20 + ((([0x45, o.tos, o.l0, o.l1, o.i0, o.i1, o.f0, o.f1, o.ttl, 1, o.c0, o.c1] ++
+        [r0, r1, r2, r3] ++ [s0, s1, s2, s3] ++ icmp).getD 0 0).toNat % 16 * 4 - 20))
+        (20 + icmp.length) = 20 := by
+      have : (([0x45, o.tos, o.l0, o.l1, o.i0, o.i1, o.f0, o.f1, o.ttl, 1, o.c0, o.c1] ++
+        [r0, r1, r2, r3] ++ [s0, s1, s2, s3] ++ icmp).getD 0 0) = 0x45 := by simp
+      rw [this]
+      have : (0x45 : UInt8).toNat % 16 * 4 - 20 = 0 := by decide
+      omega
+    rw [hmin]
+    simp only [R.bind_ok]
+    have hd : ([0x45, o.tos, o.l0, o.l1, o.i0, o.i1, o.f0, o.f1, o.ttl, 1, o.c0, o.c1] ++
+        [r0, r1, r2, r3] ++ [s0, s1, s2, s3] ++ icmp).drop 20 = icmp := by simp
+    have ht : (([0x45, o.tos, o.l0, o.l1, o.i0, o.i1, o.f0, o.f1, o.ttl, 1, o.c0, o.c1] ++
+        [r0, r1, r2, r3] ++ [s0, s1, s2, s3] ++ icmp).drop 12).take 4 = [r0, r1, r2, r3] := by simp
+    rw [hd, ht, if_neg (by simp; omega)]
+  · simp only [if_true]
+    simp only [hv, if_true] at hr
+    have := hsrc hv
+    subst this
+    unfold recvIcmp6
+    rw [if_neg (by simp; omega)]
+    have hne : ¬ (src.isEmpty = true) := by
+      intro h; rw [List.isEmpty_iff] at h; rw [h] at hr; simp at hr
+    rw [if_neg hne, if_neg (by omega)]
+
+
+/-- an IPv4 datagram without options from `src` to `dst`: identification `i0 i1`, protocol `pr`,
+first eight octets of data `a0 … a7` -/
+def IsDatagram4 (src dst : Buf) (d : Buf) (i0 i1 pr a0 a1 a2 a3 a4 a5 a6 a7 : UInt8) : Prop :=
+  ∃ tos l0 l1 f0 f1 ttl c0 c1 rest,
+    d = [0x45, tos, l0, l1, i0, i1, f0, f1, ttl, pr, c0, c1] ++ src ++ dst ++
+      (a0 :: a1 :: a2 :: a3 :: a4 :: a5 :: a6 :: a7 :: rest)
+
+/-- a quotation of such a datagram starts with the rewritten header and the eight octets -/
+theorem quote4_take (src dst : Buf) (hs : src.length = 4) (hd : dst.length = 4) (d : Buf)
+    (i0 i1 pr a0 a1 a2 a3 a4 a5 a6 a7 : UInt8)
+    (h : IsDatagram4 src dst d i0 i1 pr a0 a1 a2 a3 a4 a5 a6 a7) (m : Mut4) (n : Nat) :
+    ∃ f0 f1 s0 s1 s2 s3 d0 d1 d2 d3, dst = [d0, d1, d2, d3] ∧
+      (quote4 m d n).take 28 =
+        q4 m.tos m.len0 m.len1 i0 i1 f0 f1 m.ttl pr m.ck0 m.ck1 s0 s1 s2 s3 d0 d1 d2 d3
+          a0 a1 a2 a3 a4 a5 a6 a7 ∧ 28 ≤ (quote4 m d n).length := by
+  obtain ⟨tos, l0, l1, f0, f1, ttl, c0, c1, rest, rfl⟩ := h
+  obtain ⟨s0, s1, s2, s3, hs'⟩ := len4 _ hs
+  obtain ⟨d0, d1, d2, d3, hd'⟩ := len4 _ hd
+  refine ⟨f0, f1, s0, s1, s2, s3, d0, d1, d2, d3, hd', ?_, ?_⟩
+  · rw [hs', hd']; simp [quote4, mutHdr4, q4]
+  · rw [hs', hd']; simp [quote4, mutHdr4]
+
+/-- the IPv4 parser's verdict on the first 28 octets (independent of what follows) -/
+def parse4 (c : ChanCfg) (tos i0 i1 pr : UInt8) (dst : Buf) (a0 a1 a2 a3 a4 a5 a6 a7 : UInt8) :
+    R (Option Strat.ProtoResp) :=
+  match c.proto with
+  | .icmp =>
+    if pr = 1 then .ok (some (.icmp (beN a4 a5) (beN a6 a7) (some tos.toNat))) else .ok none
+  | .udp =>
+    if pr = 17 then
+      (fun e => some (.udp (beN i0 i1) (addrNat dst) (beN a0 a1) (beN a2 a3)
+          (some tos.toNat) e (beN a6 a7) (beN a4 a5 - 8) false)) <$>
+        calcUdpChecksum c (beN a0 a1) (beN a2 a3) (beN a4 a5 - 8)
+    else .ok none
+  | .tcp =>
+    if pr = 6 then
+      .ok (some (.tcp (addrNat dst) (beN a0 a1) (beN a2 a3) (some tos.toNat)))
+    else .ok none
+
+theorem len16 (l : Buf) (h : l.length = 16) :
+    ∃ x0 x1 x2 x3 x4 x5 x6 x7 x8 x9 x10 x11 x12 x13 x14 x15,
+      l = [x0, x1, x2, x3, x4, x5, x6, x7, x8, x9, x10, x11, x12, x13, x14, x15] := by
+  match l, h with
+  | [x0, x1, x2, x3, x4, x5, x6, x7, x8, x9, x10, x11, x12, x13, x14, x15], _ =>
+    exact ⟨x0, x1, x2, x3, x4, x5, x6, x7, x8, x9, x10, x11, x12, x13, x14, x15, rfl⟩
+
+/-- an IPv6 datagram from `src` to `dst`: next header `nh`, first eight octets of payload
+`a0 … a7`, remaining payload `rest`; the payload-length field is consistent -/
+def IsDatagram6 (src dst : Buf) (d : Buf) (nh a0 a1 a2 a3 a4 a5 a6 a7 : UInt8) (rest : Buf) : Prop :=
+  ∃ b0 b1 b2 b3 p0 p1 hl,
+    d = [b0, b1, b2, b3, p0, p1, nh, hl] ++ src ++ dst ++
+      (a0 :: a1 :: a2 :: a3 :: a4 :: a5 :: a6 :: a7 :: rest) ∧
+    beN p0 p1 = 8 + rest.length
+
+/-- the IPv6 parser's verdict, given the part `t6` of the quoted payload after its first eight
+octets that the parser gets to see -/
+def parse6 (c : ChanCfg) (tc : Nat) (nh : UInt8) (dst : Buf) (a0 a1 a2 a3 a4 a5 a6 a7 : UInt8)
+    (t6 : Buf) : R (Option Strat.ProtoResp) :=
+  match c.proto with
+  | .icmp =>
+    if nh = 58 then .ok (some (.icmp (beN a4 a5) (beN a6 a7) (some tc))) else .ok none
+  | .udp =>
+    if nh = 17 then
+      let magic := Consts.net6_MAGIC.isPrefixOf t6
+      .ok (some (.udp 0 (addrNat dst) (beN a0 a1) (beN a2 a3) (some tc) (beN a6 a7) (beN a6 a7)
+        (if magic then beN a4 a5 - 8 - 6 else beN a4 a5 - 8) magic))
+    else .ok none
+  | .tcp =>
+    if nh = 6 then
+      if t6.length < 12 then .err .pktShort
+      else .ok (some (.tcp (addrNat dst) (beN a0 a1) (beN a2 a3) (some tc)))
+    else .ok none
+
+theorem tc_roundtrip (tc b1 : UInt8) :
+    (UInt8.ofNat (96 + tc.toNat / 16)).toNat % 16 * 16 +
+      (UInt8.ofNat (tc.toNat % 16 * 16 + b1.toNat % 16)).toNat / 16 = tc.toNat := by
+  have := UInt8.toNat_lt tc
+  simp only [UInt8.toNat_ofNat']; omega
+
+
+/-- the octets `make_ipv4_packet` produces -/
+def ip4Bytes (c : ChanCfg) (proto : UInt8) (ttl ident : Nat) (payload : Buf) : Buf :=
+  [0x45, c.tos, hi (20 + payload.length), lo (20 + payload.length), hi ident, lo ident,
+   hi Consts.net4_DONT_FRAGMENT, lo Consts.net4_DONT_FRAGMENT, UInt8.ofNat ttl, proto, 0, 0] ++
+    c.src ++ c.dst ++ payload
+
+theorem makeIpv4_eq (c : ChanCfg) (proto : UInt8) (ttl ident : Nat) (payload : Buf)
+    (hl : 20 + payload.length ≤ 1024) :
+    makeIpv4 c proto ttl ident payload = .ok (ip4Bytes c proto ttl ident payload) := by
+  have h2 : ¬ (1024 < 20 + payload.length) := by omega
+  simp [makeIpv4, MAX_PACKET_SIZE, Consts.channel_MAX_PACKET_SIZE, h2, ip4Bytes]
+
+/-- the packet size is in the accepted range of the family -/
+def SizeOk (c : ChanCfg) : Prop := (if c.v6 then 48 else 28) ≤ c.packetSize ∧ c.packetSize ≤ 1024
+
+/-- the probe's fields are machine values (`u16` / `u8`) -/
+def ProbeOk (p : Strat.Probe) : Prop :=
+  p.seq < 65536 ∧ p.ident < 65536 ∧ p.srcPort < 65536 ∧ p.destPort < 65536 ∧ p.ttl ≤ 255
+
+theorem size_facts (c : ChanCfg) (hsz : SizeOk c) :
+    ¬ ¬ (minIcmp c ≤ c.packetSize ∧ c.packetSize ≤ MAX_PACKET_SIZE) ∧
+    ¬ ¬ (minUdp c ≤ c.packetSize ∧ c.packetSize ≤ MAX_PACKET_SIZE) ∧
+    c.packetSize - l4Hdr - ipHdr c ≤ maxIcmpPayload c ∧
+    ¬ (c.packetSize - l4Hdr - ipHdr c > maxUdpPayload c) ∧
+    8 + (c.packetSize - l4Hdr - ipHdr c) ≤ maxUdpBuf c ∧
+    20 + (8 + (c.packetSize - l4Hdr - ipHdr c)) ≤ 1024 := by
+  unfold SizeOk at hsz
+  cases hv : c.v6 <;>
+    simp [hv, minIcmp, minUdp, MAX_PACKET_SIZE, Consts.channel_MAX_PACKET_SIZE, ipHdr,
+      maxIcmpPayload, maxUdpPayload, maxUdpBuf,
+      Consts.net4_MIN_PACKET_SIZE_ICMP, Consts.net4_MIN_PACKET_SIZE_UDP,
+      Consts.net6_MIN_PACKET_SIZE_ICMP, Consts.net6_MIN_PACKET_SIZE_UDP,
+      Consts.net4_MAX_ICMP_PAYLOAD_BUF, Consts.net6_MAX_ICMP_PAYLOAD_BUF,
+      Consts.net4_MAX_UDP_PAYLOAD_BUF, Consts.net6_MAX_UDP_PAYLOAD_BUF,
+      Consts.net4_MAX_UDP_PACKET_BUF, Consts.net6_MAX_UDP_PACKET_BUF] at hsz ⊢ <;> omega
+
+/-- ICMP dispatch in closed form (both families) -/
+theorem dispatch_icmp_eq (c : ChanCfg) (hc : c.AddrOk) (hp : c.proto = .icmp) (hsz : SizeOk c)
+    (p : Strat.Probe) :
+    ∃ ck, ck ≤ 0xFFFF ∧ dispatch c p = .ok
+      (if c.v6 then
+        [.setHops p.ttl, .sendTo (echoPkt c ck p.ident p.seq (c.packetSize - l4Hdr - ipHdr c)) c.dst 0]
+       else
+        [.sendTo (ip4Bytes c protoIcmp p.ttl 0
+          (echoPkt c ck p.ident p.seq (c.packetSize - l4Hdr - ipHdr c))) c.dst 0]) := by
+  obtain ⟨hcond, _, hn, _, _, hfit⟩ := size_facts c hsz
+  obtain ⟨ck, hck, he, _⟩ := makeEchoRequest_spec c hc p.ident p.seq _ hn
+  refine ⟨ck, hck, ?_⟩
+  have hel := echoPkt_length c ck p.ident p.seq (c.packetSize - l4Hdr - ipHdr c)
+  simp only [dispatch, hp, dispatchIcmp, if_neg hcond, he, R.bind_ok]
+  cases hv : c.v6
+  · simp only [Bool.false_eq_true, if_false]
+    rw [makeIpv4_eq _ _ _ _ _ (by rw [hel]; exact hfit)]
+    rfl
+  · simp only [if_true]; rfl
+
+/-- what every raw UDP probe looks like: ports, a consistent length, and where the strategy put
+the sequence -/
+def UdpShape (c : ChanCfg) (p : Strat.Probe) (udp : Buf) : Prop :=
+  ∃ l0 l1 x0 x1 rest,
+    udp = hi p.srcPort :: lo p.srcPort :: hi p.destPort :: lo p.destPort :: l0 :: l1 :: x0 :: x1 :: rest ∧
+    beN l0 l1 = 8 + rest.length ∧ 20 + (8 + rest.length) ≤ 1024 ∧
+    (isParis p.flags = true → beN x0 x1 = p.seq) ∧
+    (isParis p.flags = false → c.v6 = true → isDublin p.flags = true →
+      rest = Consts.net6_MAGIC ++ List.replicate (p.seq - c.initialSeq) c.pattern) ∧
+    (isParis p.flags = false → c.v6 = false →
+      calcUdpChecksum c p.srcPort p.destPort rest.length = .ok (beN x0 x1))
+
+/-- raw UDP dispatch in closed form (both families, all three strategies) -/
+theorem dispatch_udp_raw_eq (c : ChanCfg) (hc : c.AddrOk) (hp : c.proto = .udp)
+    (hpriv : c.privileged = true) (hsz : SizeOk c) (p : Strat.Probe) (hpr : ProbeOk p)
+    (hwin : isParis p.flags = false → c.v6 = true → isDublin p.flags = true →
+      c.initialSeq ≤ p.seq ∧ p.seq - c.initialSeq ≤ 970) :
+    ∃ udp, UdpShape c p udp ∧ dispatch c p = .ok
+      (if c.v6 then [.setHops p.ttl, .sendTo udp c.dst 0]
+       else [.sendTo (ip4Bytes c protoUdp p.ttl p.ident udp) c.dst p.destPort]) := by
+  obtain ⟨_, hcond, _, hpl, hbuf, hfit⟩ := size_facts c hsz
+  obtain ⟨h1, h2, h3, h4, h5⟩ := hpr
+  have hmb := maxUdpBuf_le c
+  cases hfp : isParis p.flags
+  · -- classic / Dublin
+    by_cases hd6 : c.v6 = true ∧ isDublin p.flags = true
+    · obtain ⟨hv, hfd⟩ := hd6
+      obtain ⟨hw1, hw2⟩ := hwin hfp hv hfd
+      have hml : Consts.net6_MAGIC.length = 6 := by decide
+      have hmp : maxUdpPayload c = 976 ∧ maxUdpBuf c = 984 := by
+        simp [maxUdpPayload, maxUdpBuf, hv, Consts.net6_MAX_UDP_PAYLOAD_BUF,
+          Consts.net6_MAX_UDP_PACKET_BUF]
+      have hlen : (Consts.net6_MAGIC ++ List.replicate (p.seq - c.initialSeq) c.pattern).length =
+          6 + (p.seq - c.initialSeq) := by simp [hml]
+      obtain ⟨ck, hck, hm, _⟩ := makeUdp_spec c hc p.srcPort p.destPort
+        (Consts.net6_MAGIC ++ List.replicate (p.seq - c.initialSeq) c.pattern)
+        (by rw [hlen, hmp.2]; omega)
+      refine ⟨udpPkt p.srcPort p.destPort ck _, ⟨_, _, _, _, _, rfl, hi_lo _ (by rw [hlen]; omega),
+        by rw [hlen]; omega, ?_, ?_, ?_⟩, ?_⟩
+      · intro h; rw [hfp] at h; cases h
+      · intro _ _ _; rfl
+      · intro _ h; rw [hv] at h; cases h
+      · have hsub : Strat.subU p.seq c.initialSeq = .ok (p.seq - c.initialSeq) := by
+          simp [Strat.subU, hw1]
+        have hfit6 : ¬ (p.seq - c.initialSeq + Consts.net6_MAGIC.length > maxUdpPayload c) := by
+          rw [hml, hmp.1]; omega
+        simp only [dispatch, hp, dispatchUdp, if_neg hcond, if_neg hpl, hpriv, if_true,
+          dispatchUdpRaw, hfp, hfd, hv, Bool.and_true, Bool.false_eq_true, if_false, hsub,
+          R.pure_eq, R.bind_ok, if_neg hfit6, hm]
+    · have hd6' : (c.v6 && isDublin p.flags) = false := by
+        cases hv : c.v6 <;> cases hfd : isDublin p.flags <;> simp_all
+      obtain ⟨ck, hck, hm, _⟩ := makeUdp_spec c hc p.srcPort p.destPort
+        (List.replicate (c.packetSize - l4Hdr - ipHdr c) c.pattern)
+        (by simp only [List.length_replicate]; exact hbuf)
+      refine ⟨udpPkt p.srcPort p.destPort ck
+        (List.replicate (c.packetSize - l4Hdr - ipHdr c) c.pattern),
+        ⟨_, _, _, _, _, rfl, ?_, ?_, ?_, ?_, ?_⟩, ?_⟩
+      · exact hi_lo _ (by simp only [List.length_replicate]; omega)
+      · simp only [List.length_replicate]; exact hfit
+      · intro h; rw [hfp] at h; cases h
+      · intro _ hv hdd; exact absurd ⟨hv, hdd⟩ hd6
+      · intro _ _
+        have hmin : min (c.packetSize - l4Hdr - ipHdr c) (maxUdpPayload c) =
+            c.packetSize - l4Hdr - ipHdr c := by omega
+        simp only [List.length_replicate, calcUdpChecksum, hmin, hm, R.bind_ok, R.pure_eq]
+        rw [hi_lo _ (by omega)]
+      · simp only [dispatch, hp, dispatchUdp, if_neg hcond, if_neg hpl, hpriv, if_true,
+          dispatchUdpRaw, hfp, hd6', Bool.false_eq_true, if_false, hm, R.pure_eq, R.bind_ok]
+        cases hv : c.v6
+        · simp only [Bool.false_eq_true, if_false]
+          rw [makeIpv4_eq _ _ _ _ _ (by rw [udpPkt_length]; simp only [List.length_replicate]; exact hfit)]
+          rfl
+        · rfl
+  · -- Paris
+    obtain ⟨ck, hck, hm, _, _⟩ := makeUdpParis_spec c hc p.srcPort p.destPort p.seq
+    refine ⟨parisPkt p.srcPort p.destPort p.seq ck, ⟨hi 10, lo 10, hi p.seq, lo p.seq,
+      [hi ck, lo ck], rfl, hi_lo 10 (by omega), by simp, ?_, ?_, ?_⟩, ?_⟩
+    · intro _; exact hi_lo _ h1
+    · intro h; rw [hfp] at h; cases h
+    · intro h; rw [hfp] at h; cases h
+    · simp only [dispatch, hp, dispatchUdp, if_neg hcond, if_neg hpl, hpriv, if_true,
+        dispatchUdpRaw, hfp, hm, R.pure_eq, R.bind_ok]
+      cases hv : c.v6
+      · simp only [Bool.false_eq_true, if_false]
+        rw [makeIpv4_eq _ _ _ _ _ (by simp [parisPkt])]
+        rfl
+      · rfl
+
+
+end recv
 
 end TV.Wire
